@@ -27,6 +27,7 @@ func forkAndExecInChild(r *Runner, argv0 *byte, argv, env []*byte, workdir, host
 		execFile = r.ExecFile
 	)
 	pipe := p[1]
+	ppid, _, _ := syscall.RawSyscall(syscall.SYS_GETPID, 0, 0, 0)
 
 	// similar to exec_linux, avoid side effect by shuffling around
 	fd, nextfd := prepareFds(r.Files)
@@ -370,6 +371,22 @@ func forkAndExecInChild(r *Runner, argv0 *byte, argv, env []*byte, workdir, host
 		_, _, err1 = syscall.RawSyscall(syscall.SYS_CAPSET, uintptr(unsafe.Pointer(&dropCapHeader)), uintptr(unsafe.Pointer(&dropCapData)), 0)
 		if err1 != 0 {
 			childExitError(pipe, LocSetCap, err1)
+		}
+	}
+
+	// A traced child is only killed together with its tracer once the tracer has
+	// set PTRACE_O_EXITKILL at the first stop. Until then it dies with the launcher.
+	if r.Ptrace {
+		_, _, err1 = syscall.RawSyscall(syscall.SYS_PRCTL, syscall.PR_SET_PDEATHSIG, uintptr(syscall.SIGKILL), 0)
+		if err1 != 0 {
+			childExitError(pipe, LocPtraceMe, err1)
+		}
+		// the launcher may be gone already (getppid is 0 inside a new pid namespace)
+		if r.CloneFlags&unix.CLONE_NEWPID == 0 {
+			if r1, _, _ = syscall.RawSyscall(syscall.SYS_GETPPID, 0, 0, 0); r1 != ppid {
+				err1 = syscall.ESRCH
+				childExitError(pipe, LocPtraceMe, err1)
+			}
 		}
 	}
 
